@@ -44,7 +44,7 @@ def run(env, res):
     if c06_backoff is not None:
         c06_backoff.run_backoff(env, res)
     directed = [('c06', fo.c06_family, env.n(400, 100000)), ('c06-retry-reentry', fo.c06_reentry_family, env.n(160, 100000))]
-    flowcheck.run_streams(env, res, directed, env.n(400, 15000), weights={'fail': 7},
+    flowcheck.run_streams(env, res, directed, env.n(400, 100000), weights={'fail': 7},
                           random_monitor=flowcheck.monitor_all)
 
 
